@@ -166,6 +166,8 @@ def _collection_sources(v):
                     if sub is None:
                         return None
                     out |= sub
+                elif A.show(inner) in ("std::vec::Vec::new()", "std::collections::HashSet::new()", "std::default::Default::default()"):
+                    pass          # `map_or_else(Vec::new, ..)`: an empty collection contributes nothing
                 else:
                     out.add(A.show(inner))
             else:
